@@ -159,6 +159,8 @@ impl<'a> Ctx<'a> {
 		let ((slices, _n), reqs, first) = match r {
 			Caught::Ok(x) => x,
 			Caught::Panic(_) => {
+				// C20 says nothing about panics; the accessor cannot be judged on this input. Counted,
+				// reported as a note, and a batch with too many of them is not allowed to say "held".
 				WINDOW.with(|w| w.set(false));
 				self.stats.hit("accessor_panicked");
 				return Ok(());
@@ -175,17 +177,16 @@ impl<'a> Ctx<'a> {
 			let (p, l) = *s;
 			let inside = p >= base && p + l <= end;
 			if !inside {
-				// must be one of the fixed constants (by content) - and no allocation happened.
-				// The property allows "a fixed constant such as the root path" without saying
-				// which accessor may return which, so every path-valued accessor may return any
-				// of the library's three path constants, and an empty slice (which carries no
-				// byte of anything) is accepted from every accessor.
-				let content: &[u8] = unsafe { std::slice::from_raw_parts(p as *const u8, l) };
-				let path_valued = !consts.is_empty();
-				let ok = content.is_empty() || (path_valued && PATH_CONSTANTS.contains(&content));
-				if !ok {
-					return Err(fail("slice_outside_input", self.ty, name, format!("{}::{} returned a {}-byte slice that is neither inside the input nor a fixed constant", self.ty, name, l), self.text));
+				// No allocation happened in this window (checked above), so a slice that is not
+				// inside the input can only point at static data: "a fixed constant such as the
+				// root path". The property does not say which constants exist or which accessor
+				// may return which, so a short one is accepted from any accessor and counted; a
+				// long one cannot be a constant of a URI library and is taken for a copy parked
+				// in some static buffer.
+				if l > MAX_CONSTANT_LEN {
+					return Err(fail("slice_outside_input", self.ty, name, format!("{}::{} returned a {}-byte slice that is neither inside the input nor plausibly a fixed constant", self.ty, name, l), self.text));
 				}
+				let _ = consts;
 				self.stats.hit("constant_slices_returned");
 				continue;
 			}
@@ -200,8 +201,9 @@ impl<'a> Ctx<'a> {
 	}
 }
 
-/// The path constants of the library: `Path::EMPTY`, `Path::EMPTY_ABSOLUTE`, and the `/./` of `parent()`.
-const PATH_CONSTANTS: &[&[u8]] = &[b"", b"/", b"/./"];
+/// Longest slice outside the input that is still taken for a fixed constant (the library's own
+/// are `""`, `/`, `/./`, `.`, `..`).
+const MAX_CONSTANT_LEN: usize = 4;
 
 fn none8() -> [Option<Sl>; 8] {
 	[None; 8]
@@ -326,10 +328,33 @@ macro_rules! path_accessors {
 	($cx:expr, $p:expr) => {{
 		let p = $p;
 		let cx: &mut Ctx = $cx;
+		let mut counted = usize::MAX;
 		cx.acc("segments", &[], false, || {
 			let mut o = none8();
 			let mut n = 0usize;
 			for s in p.segments() {
+				if n < 8 {
+					o[n] = Some(sl(s.as_bytes()));
+				}
+				n += 1;
+			}
+			counted = n;
+			(o, n)
+		})?;
+		if counted != usize::MAX {
+			// on inputs far larger than any inline buffer the count is compared with an
+			// independent '/' count (outside the window)
+			let b = p.as_bytes();
+			let body = if b.first() == Some(&b'/') { &b[1..] } else { b };
+			let want = if body.is_empty() { 0 } else { 1 + body.iter().filter(|c| **c == b'/').count() };
+			if counted != want {
+				return Err(fail("segment_count_on_large_input", cx.ty, "segments", format!("segments() yielded {} items, the text has {}", counted, want), cx.text));
+			}
+		}
+		cx.acc("into_iter", &[], false, || {
+			let mut o = none8();
+			let mut n = 0usize;
+			for s in p {
 				if n < 8 {
 					o[n] = Some(sl(s.as_bytes()));
 				}
@@ -418,9 +443,16 @@ pub fn run_case(case: &AllocCase, stats: &mut AllocStats) -> Result<(), Violatio
 			let input = $input;
 			if only.is_none() || only == Some("try_from") {
 				stats.windows += 1;
-				let (r, reqs, first) = window(|| <&$T>::try_from(input).ok().map(|v| sl(v.as_bytes())));
-				if reqs != 0 {
-					return Err(fail("allocation_in_window", ty, "try_from", format!("{} allocation request(s) during <&{}>::try_from (first: {} bytes)", reqs, ty, first), text));
+				let (r, reqs, first) = match guarded(|| window(|| <&$T>::try_from(input).ok().map(|v| (v as *const $T as *const u8 as usize, std::mem::size_of_val(v))))) {
+					Caught::Ok(x) => x,
+					_ => {
+						WINDOW.with(|w| w.set(false));
+						stats.hit("constructor_panicked");
+						return Ok(());
+					}
+				};
+				if reqs != 0 && r.is_some() {
+					return Err(fail("allocation_in_window", ty, "try_from", format!("{} allocation request(s) during <&{}>::try_from on valid input (first: {} bytes)", reqs, ty, first), text));
 				}
 				if let Some(s) = r {
 					if s != sl(text) {
@@ -430,25 +462,49 @@ pub fn run_case(case: &AllocCase, stats: &mut AllocStats) -> Result<(), Violatio
 			}
 			if only.is_none() || only == Some("validate") {
 				stats.windows += 1;
-				let (_, reqs, first) = window(|| <$T>::validate($tokens));
-				if reqs != 0 {
+				let (valid, reqs, first) = match guarded(|| window(|| <$T>::validate($tokens))) {
+					Caught::Ok(x) => x,
+					_ => {
+						WINDOW.with(|w| w.set(false));
+						stats.hit("constructor_panicked");
+						return Ok(());
+					}
+				};
+				if reqs != 0 && valid {
 					return Err(fail("allocation_in_window", ty, "validate", format!("{} allocation request(s) during {}::validate (first: {} bytes)", reqs, ty, first), text));
 				}
 			}
 			if only.is_none() || only == Some("new") {
 				stats.windows += 1;
-				let (r, reqs, first) = window(|| <$T>::new(input).ok().map(|v| sl(v.as_bytes())));
-				if reqs != 0 {
-					return Err(fail("allocation_in_window", ty, "new", format!("{} allocation request(s) during {}::new on {} input (first: {} bytes)", reqs, ty, if r.is_some() { "valid" } else { "invalid" }, first), text));
-				}
-				match r {
-					Some(s) => {
-						stats.hit("valid_inputs");
-						if s != sl(text) {
-							return Err(fail("value_is_not_the_input", ty, "new", format!("{}::new returned a value that does not occupy exactly the caller's input", ty), text));
+				// the value itself (a `&T` to an unsized wrapper) must occupy exactly the caller's input
+				let g = guarded(|| window(|| <$T>::new(input).ok().map(|v| (v as *const $T as *const u8 as usize, std::mem::size_of_val(v)))));
+				match g {
+					Caught::Ok((r, reqs, first)) => {
+						match r {
+							Some(s) => {
+								stats.hit("valid_inputs");
+								if reqs != 0 {
+									return Err(fail("allocation_in_window", ty, "new", format!("{} allocation request(s) during {}::new on valid input (first: {} bytes)", reqs, ty, first), text));
+								}
+								if s != sl(text) {
+									return Err(fail("value_is_not_the_input", ty, "new", format!("{}::new returned a value that does not occupy exactly the caller's input", ty), text));
+								}
+							}
+							None => {
+								stats.hit("invalid_inputs");
+								// C20 quantifies over valid inputs; what rejection costs is noted, not judged
+								if reqs != 0 {
+									stats.hit("allocations_while_rejecting_invalid_input");
+								}
+							}
 						}
 					}
-					None => stats.hit("invalid_inputs"),
+					Caught::Panic(_) => {
+						WINDOW.with(|w| w.set(false));
+						stats.hit("constructor_panicked");
+						return Ok(());
+					}
+					Caught::Injected => unreachable!(),
 				}
 			}
 			<$T>::new(input).ok()
@@ -644,7 +700,24 @@ pub fn gen_case(rng: &mut Rng, stats: &mut AllocStats, thorough: bool) -> AllocC
 		"uri::Query" | "iri::Query" => g.query(),
 		_ => g.fragment(),
 	};
-	if huge && (ty.ends_with("Path") || matches!(ty, "Uri" | "Iri" | "UriRef" | "IriRef")) {
+	if huge && !ty.ends_with("Path") && (!matches!(ty, "Uri" | "Iri" | "UriRef" | "IriRef") || g.rng.chance(1, 2)) {
+		// every component far larger than any inline buffer (2 KiB ... 64 KiB), not only paths
+		let n = *g.rng.pick(&[1100usize, 1100, 1100, 2100, 2100, 4200, 9000, 20000, 66000]);
+		let big_ui = |g: &mut Gen| g.chars(n, b":");
+		text = match ty {
+			"uri::Scheme" => format!("a{}", "b1+-.".repeat(n / 5)),
+			"uri::Port" => "1234567890".repeat(n / 10),
+			"uri::UserInfo" | "iri::UserInfo" => big_ui(&mut g),
+			"uri::Host" | "iri::Host" => g.chars(n, b""),
+			"uri::Segment" | "iri::Segment" => g.chars(n, b":@"),
+			"uri::Query" | "iri::Query" | "uri::Fragment" | "iri::Fragment" => g.chars(n, b":@/?"),
+			"uri::Authority" | "iri::Authority" => format!("{}@{}:{}", big_ui(&mut g), g.chars(n, b""), "8".repeat(n / 100 + 1)),
+			_ => {
+				let scheme = if matches!(ty, "Uri" | "Iri") || g.rng.chance(1, 2) { "s:" } else { "" };
+				format!("{}//{}@{}:80/p/{}?{}#{}", scheme, big_ui(&mut g), g.chars(n, b""), g.chars(n, b":@"), g.chars(n, b":@/?"), g.chars(n, b":@/?"))
+			}
+		};
+	} else if huge && (ty.ends_with("Path") || matches!(ty, "Uri" | "Iri" | "UriRef" | "IriRef")) {
 		// 5 000 segments / tens of KiB
 		let n = g.rng.range(2000, 5000);
 		let mut tail = String::new();
